@@ -183,6 +183,7 @@ class Summary:
         self.tails = {}              # member g written here -> members used after the last write of g
         self.taillocks = {}          # member g written here -> locks held at the last write of g (released afterwards)
         self.body_nodes = []         # AST of the bodies (not serialised)
+        self.uses = []               # every member the method uses off the loop thread, through its calls as well (locks included)
         self.paths = None            # destructors: [(joined, [guard members])] over the paths through the body
         self.regargs = []            # (target class, setter, calleeclass, callee, kind, type, file, line): arguments bound into a
                                      # callback registered on another object (x->setXxxCallback(bind(...)))
@@ -931,6 +932,7 @@ def finish_tails(classes):
 
     for (cname, _fields, sums) in classes:
         for s in sums:
+            s.uses = sorted(uses(cname, s.name, frozenset(), False))
             for (g, start, end) in s.tailranges:
                 t = set(s.tails.get(g, []))
                 for (callee, pos, inloop) in s.callpos:
@@ -1106,6 +1108,7 @@ def emit_coq(classes, table, srchash):
             L.append("  %s" % clist(tails))
             tl = ["(%s, %s)" % (cs(g), clist([cs(x) for x in t])) for g, t in sorted(s.taillocks.items()) if t]
             L.append("  %s" % clist(tl))
+            L.append("  %s" % clist([cs(x) for x in s.uses]))
             pas, seen = [], set()
             for (c, m, kind, ty, inloop, fl, ln) in s.postargs:
                 key = (c, m, kind, inloop)
@@ -1270,7 +1273,7 @@ def main():
                                      "line": s.decl_line, "accesses": s.accesses, "calls": s.calls, "xcalls": s.xcalls,
                                      "posts": s.posts, "registers": s.registers, "lockuses": s.lockuses,
                                      "destroys": s.destroys, "joins": s.joins, "join": s.join, "rawposts": s.rawposts, "postargs": s.postargs,
-                                     "tails": s.tails, "taillocks": s.taillocks, "paths": s.paths,
+                                     "tails": s.tails, "taillocks": s.taillocks, "paths": s.paths, "uses": s.uses,
                                      "regargs": s.regargs, "bodies": s.bodies} for s in sums}}
         d = {"v": v, "summary": summ, "missing": MISSING + [l for l in buf.getvalue().splitlines() if l]}
         for old in glob.glob(os.path.join(WORK, "gen_%s_*.json" % hashlib.sha1(REPO.encode()).hexdigest()[:6])):
